@@ -103,6 +103,9 @@ def run(ctx):
         cases.append((s, s2, edits))
     for a, c in APACHE:
         cases.append((a, a, []))
+    # fixed corpus: null-namespace types ("namespace": "" / null) nested in a namespaced type, their children, later references
+    for c in sg.NULL_NS_CORPUS:
+        cases.append((c, c, []))
     # witness of the fixed-point defect, re-run on every run
     w = {"type": "record", "name": "a.P", "fields": [{"name": "f", "type": {"type": "fixed", "name": "R", "namespace": "", "size": 1}}]}
     cases.append((w, w, []))
@@ -140,7 +143,7 @@ def run(ctx):
                 spec_says = "ok:" + mp
                 ctx.violation("corr:canon", case(sch), impl=r, model=mc,
                               signature="C13:to_parsing_canonical_form:differs-from-model:" + ("spec-agrees-with-model" if mc == spec_says else "spec-differs-too"),
-                              found_input=(r != spec_says and r.startswith("ok:")))
+                              found_input=(r != spec_says))      # the code differs from the specification's form on this concrete schema
             elif r.startswith("ok:") and r[3:] != mp:
                 # code == model of the code, but both differ from the specification's transformation
                 ctx.violation("corr:canon", case(sch), impl=r, model="ok:" + mp,
